@@ -49,6 +49,7 @@ type Engine struct {
 	errConsts   map[*ssa.Global]string
 	modulePath  string
 	loopCache   map[*ssa.Function]*loopInfo
+	hookArgs  []Val
 	gconsts   map[*ssa.Global]*ssa.Const
 	guards    map[string]*guardInfo // "pkgpath.Type.field" -> guard
 	typedOnce map[string]bool
@@ -836,6 +837,7 @@ func (e *Engine) execInstr(st *State, instr ssa.Instruction) {
 		st.private[root] = true
 		mt := in.Type().Underlying().(*types.Map)
 		e.mapInitEmpty(st, addr, mt)
+		st.typeFact(addr, in.Type())
 		set(in, Val{K: KAddr, T: addr, Root: root, NonNil: true})
 	case *ssa.MakeChan:
 		root := st.newRoot()
